@@ -29,7 +29,88 @@ type Canon struct {
 	// between that changes what they read).
 	obsCand map[types.Object]ast.Expr
 	ObsOK   func(o types.Object, def ast.Expr, use *ast.Ident) bool
+	// Inline, when set, gives the formula a boolean helper call stands for (nil: keep the call as an atom).
+	Inline func(call *ast.CallExpr) *F
 }
+
+// AddInlined makes the canon of a function cover the helper bodies spliced into its graph (flow.BuildInlining):
+// parameters that were not materialised print as the caller's argument, the helpers' locals are scanned and named like
+// the function's own (after them, in call order), and the variables assigned from a spliced call are ordinary
+// multiply-assigned locals. alias, when not nil, replaces the alias map (it now covers the helpers' locals).
+func (c *Canon) AddInlined(body *ast.BlockStmt, inl []*InlinedCall, alias map[types.Object]LocalAlias) {
+	if len(inl) == 0 {
+		return
+	}
+	if alias != nil {
+		c.alias = alias
+	}
+	bodies := []ast.Node{body}
+	for _, ic := range inl {
+		for p, arg := range ic.Subst {
+			if o := c.Info.Defs[p]; o != nil {
+				c.expand[o] = arg
+			}
+		}
+		c.scanLocals(ic.Decl.Body)
+		for _, p := range ic.Bound {
+			bodies = append(bodies, p)
+		}
+		bodies = append(bodies, ic.Decl.Body)
+	}
+	for _, ic := range inl {
+		for _, l := range ic.Lhs {
+			if id, ok := ast.Unparen(l).(*ast.Ident); ok {
+				if o := c.Info.ObjectOf(id); o != nil {
+					delete(c.expand, o)
+					delete(c.obsCand, o)
+					delete(c.tuple, o)
+				}
+			}
+		}
+		// a bound parameter is assigned at every call of the helper: never a definition to print
+		for _, p := range ic.Bound {
+			if o := c.Info.Defs[p]; o != nil {
+				delete(c.expand, o)
+				delete(c.obsCand, o)
+			}
+		}
+	}
+	// name again over all bodies
+	for o := range c.base {
+		delete(c.names, o)
+	}
+	c.base = map[types.Object]string{}
+	c.nameLocalsIn(bodies)
+}
+
+// LocalTerms lists the names under which the function's own locals print when they are not replaced by a definition.
+func (c *Canon) LocalTerms() []string {
+	seen := map[string]bool{}
+	var out []string
+	for o, n := range c.names {
+		if _, isRole := c.roles[o]; isRole {
+			continue
+		}
+		if !seen[n] {
+			seen[n] = true
+			out = append(out, n)
+		}
+	}
+	for _, n := range c.base {
+		if n != "" && !seen[n] {
+			seen[n] = true
+			out = append(out, n)
+		}
+	}
+	sort.Strings(out)
+	return out
+}
+
+// ConstOf is the exact constant value of e ("" when e is not constant).
+func (c *Canon) ConstOf(e ast.Expr) string { return c.constOf(e) }
+
+// ReplaceIdent replaces the identifier name in text (not where it is a selected field or method).
+func ReplaceIdent(text, name, with string) string { return replaceIdent(text, name, with) }
 
 func (c *Canon) obsDef(o types.Object, use *ast.Ident) (ast.Expr, bool) {
 	if c.ObsOK == nil || use == nil {
@@ -258,30 +339,39 @@ func (c *Canon) pureExpr(e ast.Expr) bool {
 }
 
 // nameLocals gives distinct objects with the same name distinct canonical names.
-func (c *Canon) nameLocals(body *ast.BlockStmt) {
+func (c *Canon) nameLocals(body *ast.BlockStmt) { c.nameLocalsIn([]ast.Node{body}) }
+
+func (c *Canon) nameLocalsIn(bodies []ast.Node) {
 	type ent struct {
 		o   types.Object
 		pos token.Pos
 		ord int
 	}
 	by := map[string][]ent{}
-	ast.Inspect(body, func(n ast.Node) bool {
-		id, ok := n.(*ast.Ident)
-		if !ok {
-			return true
-		}
-		if o := c.Info.Defs[id]; o != nil {
-			if _, isVar := o.(*types.Var); isVar {
-				name, ord := id.Name, 0
-				if a, ok := c.alias[o]; ok {
-					name, ord = a.Name, a.Ord
-				}
-				c.base[o] = name
-				by[name] = append(by[name], ent{o, id.Pos(), ord})
+	seq := token.Pos(0)
+	for _, body := range bodies {
+		ast.Inspect(body, func(n ast.Node) bool {
+			id, ok := n.(*ast.Ident)
+			if !ok {
+				return true
 			}
-		}
-		return true
-	})
+			if o := c.Info.Defs[id]; o != nil {
+				if _, isVar := o.(*types.Var); isVar {
+					if _, isRole := c.roles[o]; isRole {
+						return true
+					}
+					name, ord := id.Name, 0
+					if a, ok := c.alias[o]; ok {
+						name, ord = a.Name, a.Ord
+					}
+					c.base[o] = name
+					seq++ // declaration order: the function's own body first, spliced helpers after it in call order
+					by[name] = append(by[name], ent{o, seq, ord})
+				}
+			}
+			return true
+		})
+	}
 	// implicit objects of type switches are in Implicits; they share the symbolic name
 	for name, es := range by {
 		sort.Slice(es, func(i, j int) bool { return es[i].pos < es[j].pos })
@@ -373,6 +463,14 @@ func (c *Canon) Term(e ast.Expr) string {
 		}
 		return c.Term(x.X) + "." + x.Sel.Name
 	case *ast.CallExpr:
+		// a conversion to the type the operand already has is the operand
+		if tv, ok := c.Info.Types[x.Fun]; ok && tv.IsType() && len(x.Args) == 1 {
+			if at := c.Info.TypeOf(x.Args[0]); at != nil && types.Identical(at, tv.Type) {
+				if atv, ok := c.Info.Types[x.Args[0]]; !ok || atv.Value == nil {
+					return c.Term(x.Args[0])
+				}
+			}
+		}
 		var args []string
 		for _, a := range x.Args {
 			args = append(args, c.Term(a))
@@ -537,6 +635,23 @@ func (c *Canon) atom(e ast.Expr) *F {
 					c.depth--
 					return r
 				}
+			}
+			if _, isRole := c.roles[o]; !isRole && c.depth < 12 {
+				if def, ok := c.obsDef(o, x); ok {
+					c.depth++
+					r := c.Formula(FromExpr(def))
+					c.depth--
+					return r
+				}
+			}
+		}
+	case *ast.CallExpr:
+		if c.Inline != nil && c.depth < 12 {
+			c.depth++
+			f := c.Inline(x)
+			c.depth--
+			if f != nil {
+				return f
 			}
 		}
 	case *ast.UnaryExpr:
@@ -787,11 +902,19 @@ func LocalSignatures(info *types.Info, body *ast.BlockStmt) []LocalSig {
 // LocalSignaturesRoles is LocalSignatures with the receiver and parameters printed by role (recv, p0, ...), so that a
 // renamed parameter does not change the signatures of the locals computed from it.
 func LocalSignaturesRoles(info *types.Info, recv *ast.FieldList, ftype *ast.FuncType, body *ast.BlockStmt) []LocalSig {
-	roles := map[string]string{}
+	return LocalSignaturesInlined(info, recv, ftype, body, nil)
+}
+
+// LocalSignaturesInlined also lists the locals of the helper bodies spliced into the function's graph, after the
+// function's own; a helper's parameters print as the caller's arguments do.
+func LocalSignaturesInlined(info *types.Info, recv *ast.FieldList, ftype *ast.FuncType, body *ast.BlockStmt, inl []*InlinedCall) []LocalSig {
+	roles := map[types.Object]string{}
 	if recv != nil {
 		for _, f := range recv.List {
 			for _, n := range f.Names {
-				roles[n.Name] = "recv"
+				if o := info.Defs[n]; o != nil {
+					roles[o] = "recv"
+				}
 			}
 		}
 	}
@@ -802,90 +925,170 @@ func LocalSignaturesRoles(info *types.Info, recv *ast.FieldList, ftype *ast.Func
 				i++
 			}
 			for _, n := range f.Names {
-				roles[n.Name] = "p" + strconv.Itoa(i)
+				if o := info.Defs[n]; o != nil {
+					roles[o] = "p" + strconv.Itoa(i)
+				}
 				i++
 			}
 		}
 	}
 	var order []types.Object
 	pos := map[types.Object]token.Pos{}
-	ast.Inspect(body, func(n ast.Node) bool {
-		if id, ok := n.(*ast.Ident); ok {
-			if o := info.Defs[id]; o != nil {
-				if _, isVar := o.(*types.Var); isVar {
-					if _, seen := pos[o]; !seen {
-						pos[o] = id.Pos()
-						order = append(order, o)
+	collect := func(n ast.Node) {
+		ast.Inspect(n, func(n ast.Node) bool {
+			if id, ok := n.(*ast.Ident); ok {
+				if o := info.Defs[id]; o != nil {
+					if _, isVar := o.(*types.Var); isVar {
+						if _, isRole := roles[o]; isRole {
+							return true
+						}
+						if _, seen := pos[o]; !seen {
+							pos[o] = id.Pos()
+							order = append(order, o)
+						}
 					}
 				}
 			}
+			return true
+		})
+	}
+	collect(body)
+	for _, ic := range inl {
+		for _, p := range ic.Bound {
+			collect(p)
 		}
-		return true
-	})
+		collect(ic.Decl.Body)
+	}
 	defs := map[types.Object][]string{}
-	text := func(e ast.Expr) string {
+	// text prints e with the local being described as §, the receiver/parameters by role, and every other local of
+	// the function by its type: renaming any of them leaves the signature unchanged.
+	var text func(e ast.Expr, own types.Object) string
+	subst := map[types.Object]ast.Expr{}
+	text = func(e ast.Expr, own types.Object) string {
 		t := types.ExprString(e)
-		for n, r := range roles {
-			t = replaceIdent(t, n, r)
+		repl := map[string]string{}
+		ast.Inspect(e, func(n ast.Node) bool {
+			id, ok := n.(*ast.Ident)
+			if !ok {
+				return true
+			}
+			o := info.ObjectOf(id)
+			if o == nil {
+				return true
+			}
+			if o == own {
+				repl[id.Name] = "§"
+			} else if r, isRole := roles[o]; isRole {
+				repl[id.Name] = r
+			} else if arg, isSub := subst[o]; isSub {
+				repl[id.Name] = text(arg, nil)
+			} else if _, isLocal := pos[o]; isLocal {
+				repl[id.Name] = "‹" + types.TypeString(o.Type(), nil) + "›"
+			}
+			return true
+		})
+		names := make([]string, 0, len(repl))
+		for n := range repl {
+			names = append(names, n)
+		}
+		sort.Strings(names)
+		// simultaneous replacement
+		ph := map[string]string{}
+		for i, n := range names {
+			h := "\x01" + strconv.Itoa(i) + "\x02"
+			nt := replaceIdent(t, n, h)
+			if nt != t {
+				ph[h] = repl[n]
+				t = nt
+			}
+		}
+		for h, v := range ph {
+			t = strings.ReplaceAll(t, h, v)
 		}
 		return t
 	}
-	add := func(lhs ast.Expr, d string) {
+	for _, ic := range inl {
+		for p, arg := range ic.Subst {
+			if o := info.Defs[p]; o != nil {
+				subst[o] = arg
+			}
+		}
+	}
+	add := func(lhs ast.Expr, d func(own types.Object) string) {
 		if id, ok := ast.Unparen(lhs).(*ast.Ident); ok {
 			if o := info.ObjectOf(id); o != nil {
 				if _, known := pos[o]; known {
-					defs[o] = append(defs[o], d)
+					defs[o] = append(defs[o], d(o))
 				}
 			}
 		}
 	}
-	ast.Inspect(body, func(n ast.Node) bool {
-		switch x := n.(type) {
-		case *ast.AssignStmt:
-			if len(x.Lhs) == len(x.Rhs) {
-				for i, l := range x.Lhs {
-					add(l, x.Tok.String()+" "+text(x.Rhs[i]))
+	scan := func(body ast.Node) {
+		ast.Inspect(body, func(n ast.Node) bool {
+			switch x := n.(type) {
+			case *ast.AssignStmt:
+				if len(x.Lhs) == len(x.Rhs) {
+					for i, l := range x.Lhs {
+						rhs := x.Rhs[i]
+						add(l, func(own types.Object) string { return asgTok(x.Tok) + " " + text(rhs, own) })
+					}
+				} else if len(x.Rhs) == 1 {
+					for i, l := range x.Lhs {
+						i := i
+						add(l, func(own types.Object) string { return fmt.Sprintf("%s #%d of %s", asgTok(x.Tok), i, text(x.Rhs[0], own)) })
+					}
 				}
-			} else if len(x.Rhs) == 1 {
-				for i, l := range x.Lhs {
-					add(l, fmt.Sprintf("%s #%d of %s", x.Tok, i, text(x.Rhs[0])))
+			case *ast.IncDecStmt:
+				add(x.X, func(types.Object) string { return x.Tok.String() })
+			case *ast.RangeStmt:
+				if x.Key != nil {
+					add(x.Key, func(own types.Object) string { return "range key of " + text(x.X, own) })
+				}
+				if x.Value != nil {
+					add(x.Value, func(own types.Object) string { return "range value of " + text(x.X, own) })
+				}
+			case *ast.ValueSpec:
+				for i, id := range x.Names {
+					i := i
+					// `var x T` alone says nothing; `var x = e` is `x := e`
+					if len(x.Values) == 0 {
+						continue
+					}
+					add(id, func(own types.Object) string {
+						if i < len(x.Values) {
+							return "= " + text(x.Values[i], own)
+						}
+						return fmt.Sprintf("= #%d of %s", i, text(x.Values[0], own))
+					})
+				}
+			case *ast.TypeSwitchStmt:
+				if as, ok := x.Assign.(*ast.AssignStmt); ok && len(as.Lhs) == 1 {
+					add(as.Lhs[0], func(own types.Object) string { return "typeswitch " + text(as.Rhs[0], own) })
 				}
 			}
-		case *ast.IncDecStmt:
-			add(x.X, x.Tok.String())
-		case *ast.RangeStmt:
-			if x.Key != nil {
-				add(x.Key, "range key of "+text(x.X))
-			}
-			if x.Value != nil {
-				add(x.Value, "range value of "+text(x.X))
-			}
-		case *ast.ValueSpec:
-			for i, id := range x.Names {
-				d := "var"
-				if i < len(x.Values) {
-					d += " = " + text(x.Values[i])
-				} else if len(x.Values) == 1 && len(x.Names) > 1 {
-					d += fmt.Sprintf(" #%d of %s", i, text(x.Values[0]))
-				}
-				add(id, d)
-			}
-		case *ast.TypeSwitchStmt:
-			if as, ok := x.Assign.(*ast.AssignStmt); ok && len(as.Lhs) == 1 {
-				add(as.Lhs[0], "typeswitch "+text(as.Rhs[0]))
-			}
-		}
-		return true
-	})
+			return true
+		})
+	}
+	scan(body)
+	for _, ic := range inl {
+		scan(ic.Decl.Body)
+	}
 	var out []LocalSig
 	for _, o := range order {
-		var ds []string
-		for _, d := range defs[o] {
-			ds = append(ds, replaceOwnName(d, o.Name()))
-		}
+		// (order-insensitive: swapping the branches of an if/else does not change what a local is)
+		ds := append([]string(nil), defs[o]...)
+		sort.Strings(ds)
 		out = append(out, LocalSig{Obj: o, Name: o.Name(), Pos: pos[o], Sig: types.TypeString(o.Type(), nil) + " | " + strings.Join(ds, " ; ")})
 	}
 	return out
+}
+
+// asgTok: `x := e` and `x = e` (after `var x T`) define x the same way.
+func asgTok(t token.Token) string {
+	if t == token.DEFINE {
+		return "="
+	}
+	return t.String()
 }
 
 // replaceOwnName replaces the identifier name by a placeholder, except where it is a selected field or method.
